@@ -45,5 +45,9 @@ func (c *Variable) Value() *variants.Variant {
 
 // SetValue the variable value.
 func (c *Variable) SetValue(value *variants.Variant) {
+	// No value is the Null value, as in NewVariable
+	if value == nil {
+		value = variants.EmptyVariant()
+	}
 	c.value = value
 }
